@@ -8,93 +8,108 @@ open Client.Spec
 structure SInv (s : State) : Prop where
   lenPub : s.outgoingPub.length = s.upperLimit + 1
   lenRel : s.outgoingRel.length = s.upperLimit + 1
+  lenOrd : s.outgoingOrder.length = s.upperLimit + 1
   slotId : ∀ (i : Nat) (p : Pub), s.outgoingPub[i]? = some (some p) → p.pkid = i ∧ p.qos ≠ 0
   colQos : ∀ c : Pub, s.collision = some c → c.qos ≠ 0
   counter : occ s.outgoingPub + relCount s.outgoingRel ≤ s.inflight
-  lastPuback : s.lastPuback ≤ s.upperLimit
 
 @[simp] theorem pushEv_fields (s : State) (e : Event) :
     (s.pushEv e).ver = s.ver ∧ (s.pushEv e).outgoingPub = s.outgoingPub ∧ (s.pushEv e).outgoingRel = s.outgoingRel ∧
     (s.pushEv e).inflight = s.inflight ∧ (s.pushEv e).collision = s.collision ∧ (s.pushEv e).upperLimit = s.upperLimit ∧
-    (s.pushEv e).lastPuback = s.lastPuback ∧ (s.pushEv e).lastPkid = s.lastPkid ∧ (s.pushEv e).maxInflight = s.maxInflight ∧
+    (s.pushEv e).outgoingOrder = s.outgoingOrder ∧ (s.pushEv e).lastPkid = s.lastPkid ∧ (s.pushEv e).maxInflight = s.maxInflight ∧
     (s.pushEv e).incomingPub = s.incomingPub ∧ (s.pushEv e).manualAcks = s.manualAcks ∧
     (s.pushEv e).awaitPingresp = s.awaitPingresp ∧ (s.pushEv e).events = s.events ++ [e] := by
   simp [State.pushEv]
 
-theorem SInv.pushEv {s : State} (h : SInv s) (e : Event) : SInv (s.pushEv e) := by
-  obtain ⟨a, b, c, d, e', f⟩ := h
-  exact ⟨a, b, c, d, e', f⟩
+/-- the fields `SInv` talks about -/
+def SFrame (s s' : State) : Prop :=
+  s'.outgoingPub = s.outgoingPub ∧ s'.outgoingRel = s.outgoingRel ∧ s'.upperLimit = s.upperLimit ∧
+  s'.collision = s.collision ∧ s'.inflight = s.inflight ∧ s'.outgoingOrder = s.outgoingOrder
+
+theorem SInv.congr {s s' : State} (h : SInv s) (f : SFrame s s') : SInv s' := by
+  obtain ⟨a, b, c, d, e', g⟩ := h
+  obtain ⟨f1, f2, f3, f4, f5, f6⟩ := f
+  exact ⟨by rw [f1, f3]; exact a, by rw [f2, f3]; exact b, by rw [f6, f3]; exact c, by rw [f1]; exact d,
+    by rw [f4]; exact e', by rw [f1, f2, f5]; exact g⟩
+
+theorem SInv.pushEv {s : State} (h : SInv s) (e : Event) : SInv (s.pushEv e) :=
+  h.congr ⟨rfl, rfl, rfl, rfl, rfl, rfl⟩
 
 theorem SInv.pushOut {s : State} (h : SInv s) (o : Outgoing) : SInv (s.pushOut o) := h.pushEv _
 
 theorem SInv.new (ver : Version) (max : Nat) (m : Bool) : SInv (State.new ver max m) := by
-  refine ⟨by simp [State.new], by simp [State.new], ?_, by simp [State.new], ?_, by simp [State.new]⟩
+  refine ⟨by simp [State.new], by simp [State.new], by simp [State.new], ?_, by simp [State.new], ?_⟩
   · intro i p h
     simp [State.new, List.getElem?_replicate] at h
   · simp [State.new, occ_replicate, relCount_replicate]
 
-theorem SInv.nextPkidSt {s : State} (h : SInv s) : SInv (nextPkidSt s) := by
-  obtain ⟨a, b, c, d, e', f⟩ := h
-  unfold Client.nextPkidSt
-  split <;> exact ⟨a, b, c, d, e', f⟩
+theorem nextPkidSt_sframe (s : State) : SFrame s (nextPkidSt s) := by
+  unfold nextPkidSt SFrame; split <;> simp
 
-theorem SInv.publishTail {s : State} (h : SInv s) (p : Pub) : SInv (publishTail s p).1 := by
-  unfold Client.publishTail
-  split
-  · split
-    · exact h
-    · exact h.pushOut _
-  · exact h.pushOut _
+theorem SInv.nextPkidSt {s : State} (h : SInv s) : SInv (nextPkidSt s) := h.congr (nextPkidSt_sframe s)
+
+theorem getElem?_lt_of_some {α} {l : List α} {i : Nat} {a : α} (h : l[i]? = some a) : i < l.length := by
+  rcases Nat.lt_or_ge i l.length with h' | h'
+  · exact h'
+  · simp [List.getElem?_eq_none h'] at h
+
+/-- storing a publish with a non-zero QoS in the empty slot of its id -/
+theorem SInv.storePub {s : State} (h : SInv s) (p : Pub) (hq : p.qos ≠ 0)
+    (hslot : s.outgoingPub[p.pkid]? = some none) : SInv (storePub s p) := by
+  obtain ⟨a, b, c, d, e', f⟩ := h
+  refine ⟨by simpa [Client.storePub] using a, b, by simpa [Client.storePub] using c, ?_, e', ?_⟩
+  · intro i q hi
+    simp only [Client.storePub, List.getElem?_set] at hi
+    split at hi
+    · split at hi
+      · simp at hi; subst hi; rename_i h1 _; exact ⟨h1, hq⟩
+      · simp at hi
+    · exact d i q hi
+  · simp only [Client.storePub, occ_set_some _ _ _ hslot]; omega
+
+theorem SInv.freeSlot {s : State} (h : SInv s) (i : Nat) (x : Pub) (hslot : s.outgoingPub[i]? = some (some x))
+    (dec : Bool) :
+    SInv { s with outgoingPub := s.outgoingPub.set i none, inflight := if dec then s.inflight - 1 else s.inflight } := by
+  have hocc := occ_set_none _ _ _ hslot
+  obtain ⟨a, b, c, d, e', f⟩ := h
+  refine ⟨by simpa using a, b, c, ?_, e', ?_⟩
+  · intro j q hj
+    simp only [List.getElem?_set] at hj
+    split at hj
+    · first | (split at hj <;> simp at hj) | simp at hj
+    · exact d j q hj
+  · simp only; split <;> omega
 
 theorem SInv.publishWithId {s : State} (h : SInv s) (p : Pub) (hq : p.qos ≠ 0) : SInv (publishWithId s p).1 := by
   unfold Client.publishWithId
   split
   · exact h
-  · apply SInv.pushOut
-    obtain ⟨a, b, c, d, e', f⟩ := h
-    exact ⟨a, b, c, by intro c hc; simp at hc; subst hc; exact hq, e', f⟩
-  · rename_i hslot
+  · rename_i slot hslot
     split
-    · exact h
-    · apply SInv.publishTail
+    · apply SInv.pushOut
       obtain ⟨a, b, c, d, e', f⟩ := h
-      refine ⟨by simpa using a, b, ?_, d, ?_, f⟩
-      · intro i q hi
-        simp only [List.getElem?_set] at hi
-        split at hi
-        · split at hi
-          · simp at hi; subst hi; rename_i h1 _; exact ⟨h1, hq⟩
-          · simp at hi
-        · exact c i q hi
-      · simp only [occ_set_some _ _ _ hslot]; omega
-
-
-/-- the fields `SInv` talks about -/
-def SFrame (s s' : State) : Prop :=
-  s'.outgoingPub = s.outgoingPub ∧ s'.outgoingRel = s.outgoingRel ∧ s'.upperLimit = s.upperLimit ∧
-  s'.collision = s.collision ∧ s'.inflight = s.inflight ∧ s'.lastPuback = s.lastPuback
-
-theorem SInv.congr {s s' : State} (h : SInv s) (f : SFrame s s') : SInv s' := by
-  obtain ⟨a, b, c, d, e', g⟩ := h
-  obtain ⟨f1, f2, f3, f4, f5, f6⟩ := f
-  exact ⟨by rw [f1, f3]; exact a, by rw [f2, f3]; exact b, by rw [f1]; exact c, by rw [f4]; exact d,
-    by rw [f1, f2, f5]; exact e', by rw [f6, f3]; exact g⟩
-
-theorem outgoingPing_frame (s : State) : SFrame s (outgoingPing s).1 := by
-  unfold Client.outgoingPing SFrame
-  simp only
-  split <;> split <;> (try split) <;> simp [State.pushOut, State.pushEv]
+      exact ⟨a, b, c, d, by intro c hc; simp at hc; subst hc; exact hq, f⟩
+    · rename_i hfree
+      split
+      · exact h
+      · have hs : s.outgoingPub[p.pkid]? = some none := by
+          cases slot with
+          | none => exact hslot
+          | some x => simp at hfree
+        exact (h.storePub p hq hs).pushOut _
 
 theorem SInv.outgoingPublish {s : State} (h : SInv s) (p : Pub) : SInv (outgoingPublish s p).1 := by
   unfold Client.outgoingPublish
   split
-  · exact h.publishTail p
-  · rename_i hq
-    split
-    · split
-      · exact h
-      · exact h.nextPkidSt.publishWithId _ hq
-    · exact h.publishWithId _ hq
+  · exact h
+  · split
+    · exact h.pushOut _
+    · rename_i hq
+      split
+      · split
+        · exact h
+        · exact h.nextPkidSt.publishWithId _ hq
+      · exact h.publishWithId _ hq
 
 theorem SInv.pubrelWithId {s : State} (h : SInv s) (i : Nat) : SInv (pubrelWithId s i).1 := by
   unfold Client.pubrelWithId
@@ -104,7 +119,7 @@ theorem SInv.pubrelWithId {s : State} (h : SInv s) (i : Nat) : SInv (pubrelWithI
     · exact h
     · apply SInv.pushOut
       obtain ⟨a, b, c, d, e', f⟩ := h
-      refine ⟨a, by simpa using b, c, d, ?_, f⟩
+      refine ⟨a, by simpa using b, c, d, e', ?_⟩
       simp only
       cases hb : s.outgoingRel[i]? with
       | none => simp at hb; omega
@@ -113,6 +128,11 @@ theorem SInv.pubrelWithId {s : State} (h : SInv s) (i : Nat) : SInv (pubrelWithI
         | true => rw [relCount_set_true_same _ _ hb]; omega
         | false => rw [relCount_set_true _ _ hb]; omega
   · exact h
+
+theorem outgoingPing_frame (s : State) : SFrame s (outgoingPing s).1 := by
+  unfold Client.outgoingPing SFrame
+  simp only
+  split <;> split <;> (try split) <;> simp [State.pushOut, State.pushEv]
 
 theorem SInv.handleOutgoing {s : State} (h : SInv s) (r : Request) : SInv (handleOutgoing s r).1 := by
   unfold Client.handleOutgoing
@@ -143,208 +163,159 @@ theorem SInv.handleOutgoing {s : State} (h : SInv s) (r : Request) : SInv (handl
   | pubrec i => exact h.pushOut _
   | other => exact h
 
-theorem SInv.pubackCollision {s : State} (h : SInv s) (i : Nat) (hs : s.outgoingPub[i]? = some none) :
-    SInv (pubackCollision s i).1 := by
-  unfold Client.pubackCollision
+/-- the id `i` has just been freed (slot `i` empty): releasing the parked publish keeps `SInv` -/
+theorem SInv.release {s : State} (h : SInv s) (i : Nat) (hs : s.outgoingPub[i]? = some none) :
+    SInv (release s i).1 := by
+  unfold Client.release
   split
   · rename_i c hc
     split
     · rename_i hci
       apply SInv.pushOut
-      obtain ⟨a, b, c', d, e', f⟩ := h
-      refine ⟨by simpa using a, b, ?_, by simp, ?_, f⟩
-      · intro j q hj
-        simp only [List.getElem?_set] at hj
-        split at hj
-        · split at hj
-          · simp at hj; subst hj; rename_i h1 _; exact ⟨h1, d c hc⟩
-          · simp at hj
-        · exact c' j q hj
-      · simp only
-        rw [hci, occ_set_some _ _ _ hs]; omega
+      have h1 : SInv { s with collision := none, collisionPingCount := 0 } := by
+        obtain ⟨a, b, c', d, e', f⟩ := h
+        exact ⟨a, b, c', d, by simp, f⟩
+      exact h1.storePub c (h.colQos c hc) (by rw [hci]; exact hs)
     · exact h
   · exact h
 
-theorem SInv.handlePuback {s : State} (h : SInv s) (i r : Nat) : SInv (handlePuback s i r).1 := by
+theorem set_none_getElem? {l : List (Option Pub)} {i : Nat} (hi : i < l.length) : (l.set i none)[i]? = some none := by
+  simp [hi]
+
+theorem SInv.handlePuback {s : State} (h : SInv s) (i : Nat) : SInv (handlePuback s i).1 := by
   unfold Client.handlePuback
   split
   · exact h
-  · rename_i slot hslot
-    have hi : i ≤ s.upperLimit := by
-      have := h.lenPub
-      have : i < s.outgoingPub.length := by
-        rcases Nat.lt_or_ge i s.outgoingPub.length with h' | h'
-        · exact h'
-        · simp [List.getElem?_eq_none h'] at hslot
-      omega
-    have h1 : SInv (if s.ver = Version.v4 then { s with lastPuback := i } else s) := by
-      split
-      · obtain ⟨a, b, c, d, e', f⟩ := h; exact ⟨a, b, c, d, e', hi⟩
-      · exact h
-    have hf : (if s.ver = Version.v4 then { s with lastPuback := i } else s).outgoingPub = s.outgoingPub ∧
-        (if s.ver = Version.v4 then { s with lastPuback := i } else s).inflight = s.inflight := by
-      split <;> simp
-    generalize (if s.ver = Version.v4 then { s with lastPuback := i } else s) = s1 at h1 hf
-    obtain ⟨hf1, hf2⟩ := hf
-    simp only
+  · exact h
+  · rename_i x hslot
     split
-    · exact h1
-    · rename_i p
-      split
-      · exact h1
-      · rename_i hinf
-        have hslot1 : s1.outgoingPub[i]? = some (some p) := by rw [hf1]; exact hslot
-        have h2 : SInv { s1 with outgoingPub := s1.outgoingPub.set i none, inflight := s1.inflight - 1 } := by
-          obtain ⟨a, b, c, d, e', f⟩ := h1
-          refine ⟨by simpa using a, b, ?_, d, ?_, f⟩
-          · intro j q hj
-            simp only [List.getElem?_set] at hj
-            split at hj
-            · first | (split at hj <;> simp at hj) | simp at hj
-            · exact c j q hj
-          · have := occ_set_none _ _ _ hslot1
-            simp only; omega
-        split
-        · exact h2
-        · apply SInv.pubackCollision h2
-          simp only [List.getElem?_set]
-          have : i < s1.outgoingPub.length := by
-            rcases Nat.lt_or_ge i s1.outgoingPub.length with h' | h'
-            · exact h'
-            · simp [List.getElem?_eq_none h'] at hslot1
-          simp [this]
+    · exact h
+    · have h2 := h.freeSlot i x hslot true
+      simp only [if_true] at h2
+      exact h2.release i (set_none_getElem? (getElem?_lt_of_some hslot))
 
 theorem SInv.handlePubrec {s : State} (h : SInv s) (i r : Nat) : SInv (handlePubrec s i r).1 := by
   unfold Client.handlePubrec
   split
   · exact h
   · exact h
-  · rename_i p hslot
-    have hlt : i < s.outgoingPub.length := by
-      rcases Nat.lt_or_ge i s.outgoingPub.length with h' | h'
-      · exact h'
-      · simp [List.getElem?_eq_none h'] at hslot
+  · rename_i x hslot
+    have hlt := getElem?_lt_of_some hslot
     have hocc := occ_set_none _ _ _ hslot
-    have h1 : SInv { s with outgoingPub := s.outgoingPub.set i none } := by
-      obtain ⟨a, b, c, d, e', f⟩ := h
-      refine ⟨by simpa using a, b, ?_, d, by simp only; omega, f⟩
-      intro j q hj
-      simp only [List.getElem?_set] at hj
-      split at hj
-      · first | (split at hj <;> simp at hj) | simp at hj
-      · exact c j q hj
+    have h1 := h.freeSlot i x hslot false
+    simp only [Bool.false_eq_true, if_false] at h1
     simp only
     split
-    · exact h1
+    · split
+      · exact h1
+      · have h2 := h.freeSlot i x hslot true
+        simp only [if_true] at h2
+        exact h2.release i (set_none_getElem? hlt)
     · split
       · rename_i hrl
         have hrl' : i < s.outgoingRel.length := hrl
         have hc0 := h.counter
         apply SInv.pushOut
         obtain ⟨a, b, c, d, e', f⟩ := h1
-        refine ⟨a, by simpa using b, c, d, ?_, f⟩
-        simp only at e' ⊢
+        refine ⟨a, by simpa using b, c, d, e', ?_⟩
+        simp only at f ⊢
         cases hb : s.outgoingRel[i]? with
-        | none =>
-          simp at hb; omega
+        | none => simp at hb; omega
         | some v =>
           cases v with
           | true => rw [relCount_set_true_same _ _ hb]; omega
           | false => rw [relCount_set_true _ _ hb]; omega
       · exact h1
 
-theorem SInv.handlePubrel {s : State} (h : SInv s) (i r : Nat) : SInv (handlePubrel s i r).1 := by
+theorem SInv.handlePubrel {s : State} (h : SInv s) (i : Nat) : SInv (handlePubrel s i).1 := by
   unfold Client.handlePubrel
-  have h1 : SInv { s with incomingPub := s.incomingPub.filter (· != i) } := by
-    obtain ⟨a, b, c, d, e', f⟩ := h; exact ⟨a, b, c, d, e', f⟩
   split
-  · simp only
-    split
-    · exact h1
-    · exact h1.pushOut _
+  · exact (h.congr (s' := { s with incomingPub := s.incomingPub.filter (· != i) }) ⟨rfl, rfl, rfl, rfl, rfl, rfl⟩).pushOut _
   · exact h
 
-theorem SInv.handlePubcompV4 {s : State} (h : SInv s) (i : Nat) : SInv (handlePubcompV4 s i).1 := by
-  unfold Client.handlePubcompV4
+theorem SInv.handlePubcomp {s : State} (h : SInv s) (i : Nat) : SInv (handlePubcomp s i).1 := by
+  unfold Client.handlePubcomp
   split
   · rename_i hc
     have hb := (relContains_eq s i).mp hc
     have hcnt := relCount_set_false _ _ hb
     split
     · obtain ⟨a, b, c, d, e', f⟩ := h
-      exact ⟨a, by simpa using b, c, d, by simp only; omega, f⟩
+      exact ⟨a, by simpa using b, c, d, e', by simp only; omega⟩
     · have h1 : SInv { s with outgoingRel := s.outgoingRel.set i false, inflight := s.inflight - 1 } := by
         obtain ⟨a, b, c, d, e', f⟩ := h
-        exact ⟨a, by simpa using b, c, d, by simp only; omega, f⟩
-      simp only
+        exact ⟨a, by simpa using b, c, d, e', by simp only; omega⟩
+      -- the slot of `i` may still be occupied when an arbitrary caller reused the id; storing
+      -- over whatever it holds keeps the structural facts
+      have hl1 := h.lenPub; have hl2 := h.lenRel
+      have hil := getElem?_lt_of_some hb
+      unfold Client.release
       split
-      · split
-        · apply SInv.pushOut
-          obtain ⟨a, b, c, d, e', f⟩ := h1
-          exact ⟨a, b, c, by simp, e', f⟩
+      · rename_i c hcol
+        have hcol' : s.collision = some c := hcol
+        split
+        · rename_i hci
+          apply SInv.pushOut
+          have hlt : c.pkid < s.outgoingPub.length := by rw [hci]; omega
+          obtain ⟨a, b, c', d, e', f⟩ := h1
+          simp only at a b c' d e' f
+          refine ⟨by simpa [Client.storePub] using a, by simpa [Client.storePub] using b,
+            by simpa [Client.storePub] using c', ?_, by simp [Client.storePub], ?_⟩
+          · intro j q hj
+            simp only [Client.storePub, List.getElem?_set] at hj
+            by_cases hcj : c.pkid = j
+            · simp only [hcj, if_true] at hj
+              subst hcj
+              simp only [hlt, if_true, Option.some.injEq] at hj
+              subst hj
+              exact ⟨rfl, h.colQos c hcol'⟩
+            · simp only [hcj, if_false] at hj
+              exact d j q hj
+          · simp only [Client.storePub]
+            cases hsl : s.outgoingPub[c.pkid]? with
+            | none => simp at hsl; omega
+            | some v =>
+              cases v with
+              | none => rw [occ_set_some _ _ _ hsl]; omega
+              | some y => rw [occ_set_same _ _ y c hsl]; omega
         · exact h1
       · exact h1
   · exact h
 
-theorem SInv.pubcompTakeCollision {s : State} (h : SInv s) (i : Nat) : SInv (pubcompTakeCollision s i) := by
-  unfold Client.pubcompTakeCollision
-  split
-  · split
-    · apply SInv.pushOut
-      obtain ⟨a, b, c, d, e', f⟩ := h
-      exact ⟨a, b, c, by simp, e', f⟩
-    · exact h
-  · exact h
-
-theorem SInv.handlePubcompV5 {s : State} (h : SInv s) (i r : Nat) : SInv (handlePubcompV5 s i r).1 := by
-  unfold Client.handlePubcompV5
-  have h1 := h.pubcompTakeCollision i
-  generalize Client.pubcompTakeCollision s i = s1 at h1
-  simp only
-  split
-  · rename_i hc
-    have hb := (relContains_eq s1 i).mp hc
-    have hcnt := relCount_set_false _ _ hb
-    have h2 : SInv { s1 with outgoingRel := s1.outgoingRel.set i false } := by
-      obtain ⟨a, b, c, d, e', f⟩ := h1
-      exact ⟨a, by simpa using b, c, d, by simp only; omega, f⟩
-    split
-    · exact h2
-    · split
-      · exact h2
-      · obtain ⟨a, b, c, d, e', f⟩ := h1
-        exact ⟨a, by simpa using b, c, d, by simp only; omega, f⟩
-  · exact h1
-
-theorem publishAlias_frame (s : State) (p : InPub) : SFrame s (publishAlias s p) := by
-  unfold Client.publishAlias SFrame
-  split
-  · simp
-  · split
-    · simp
-    · split
-      · split <;> simp
-      · split <;> simp [State.pushOut, State.pushEv]
+theorem publishAlias_frame {s s1 : State} {p : InPub} (h : publishAlias s p = some s1) : SFrame s s1 := by
+  unfold Client.publishAlias at h
+  unfold SFrame
+  split at h
+  · cases h; simp
+  · split at h
+    · cases h; simp
+    · split at h
+      · cases h; split <;> simp
+      · split at h
+        · cases h; simp
+        · cases h
 
 theorem SInv.handlePublish {s : State} (h : SInv s) (p : InPub) : SInv (handlePublish s p).1 := by
   unfold Client.handlePublish
-  have h1 := h.congr (publishAlias_frame s p)
-  generalize Client.publishAlias s p = s1 at h1
-  simp only
   split
-  · exact h1
-  · split
+  · exact h.pushOut _
+  · rename_i s1 hs1
+    have h1 := h.congr (publishAlias_frame hs1)
+    split
+    · exact h1
     · split
-      · exact h1.pushOut _
-      · exact h1
-    · have h2 : SInv (if s1.incomingPub.contains p.pkid = true then s1 else { s1 with incomingPub := p.pkid :: s1.incomingPub }) := by
-        split
+      · split
+        · exact h1.pushOut _
         · exact h1
-        · obtain ⟨a, b, c, d, e', f⟩ := h1; exact ⟨a, b, c, d, e', f⟩
-      generalize (if s1.incomingPub.contains p.pkid = true then s1 else { s1 with incomingPub := p.pkid :: s1.incomingPub }) = s2 at h2
-      split
-      · exact h2.pushOut _
-      · exact h2
+      · simp only
+        have h2 : SInv (if s1.incomingPub.contains p.pkid = true then s1 else { s1 with incomingPub := p.pkid :: s1.incomingPub }) := by
+          split
+          · exact h1
+          · exact h1.congr ⟨rfl, rfl, rfl, rfl, rfl, rfl⟩
+        generalize (if s1.incomingPub.contains p.pkid = true then s1 else { s1 with incomingPub := p.pkid :: s1.incomingPub }) = s2 at h2
+        split
+        · exact h2.pushOut _
+        · exact h2
 
 theorem handleConnack_frame (s : State) (ok : Bool) (rm am : Option Nat) : SFrame s (handleConnack s ok rm am).1 := by
   unfold Client.handleConnack SFrame
@@ -358,18 +329,14 @@ theorem SInv.handleIncoming {s : State} (h : SInv s) (p : Incoming) : SInv (hand
   generalize s.pushEv (.incoming p) = s0 at h0
   simp only
   cases p with
-  | pingresp => obtain ⟨a, b, c, d, e', f⟩ := h0; exact ⟨a, b, c, d, e', f⟩
+  | pingresp => exact h0.congr ⟨rfl, rfl, rfl, rfl, rfl, rfl⟩
   | publish q => exact h0.handlePublish q
   | suback _ => exact h0
   | unsuback _ => exact h0
-  | puback i r => exact h0.handlePuback i r
+  | puback i r => exact h0.handlePuback i
   | pubrec i r => exact h0.handlePubrec i r
-  | pubrel i r => exact h0.handlePubrel i r
-  | pubcomp i r =>
-    simp only [Client.handlePubcomp]
-    split
-    · exact h0.handlePubcompV4 i
-    · exact h0.handlePubcompV5 i r
+  | pubrel i r => exact h0.handlePubrel i
+  | pubcomp i r => exact h0.handlePubcomp i
   | connack ok sp rm am =>
     simp only
     split
@@ -384,13 +351,12 @@ theorem SInv.handleIncoming {s : State} (h : SInv s) (p : Incoming) : SInv (hand
 
 theorem SInv.cleanState {s : State} (h : SInv s) : SInv (cleanState s) := by
   obtain ⟨a, b, c, d, e', f⟩ := h
-  refine ⟨by simpa [Client.cleanState] using a, by simpa [Client.cleanState] using b, ?_, d, ?_, f⟩
+  refine ⟨by simpa [Client.cleanState] using a, by simpa [Client.cleanState] using b, c, ?_, by simp [Client.cleanState], ?_⟩
   · intro i p hp
     simp [Client.cleanState, List.getElem?_map] at hp
   · simp [Client.cleanState, occ_map_none, relCount_map_false]
 
-theorem SInv.drainEvents {s : State} (h : SInv s) : SInv (drainEvents s) := by
-  obtain ⟨a, b, c, d, e', f⟩ := h; exact ⟨a, b, c, d, e', f⟩
+theorem SInv.drainEvents {s : State} (h : SInv s) : SInv (drainEvents s) := h.congr ⟨rfl, rfl, rfl, rfl, rfl, rfl⟩
 
 theorem SInv.sstepSt {s : State} (h : SInv s) (op : SOp) : SInv (sstepSt s op) := by
   unfold Client.sstepSt
@@ -401,10 +367,6 @@ theorem SInv.sstepSt {s : State} (h : SInv s) (op : SOp) : SInv (sstepSt s op) :
   | drop => exact h
   | inflight => exact h
 
-theorem SInv.cleanPanics {s : State} (h : SInv s) : cleanPanics s = false := by
-  unfold Client.cleanPanics
-  split
-  · have := h.lenPub; have := h.lastPuback; simp; omega
-  · rfl
+theorem SInv.cleanPanics {s : State} (_ : SInv s) : cleanPanics s = false := rfl
 
 end Client
